@@ -272,25 +272,44 @@ def syncCancel (env : DEnv) (s : DState) (caller : SessKey) (req : Nat) (mode re
 /-- `syncCall` -/
 def syncCall (env : DEnv) (s : DState) (caller : SessKey) (req : Nat) (opts : Dict) (proc : String)
     (args : List WVal) (kw : Dict) (rnd : Nat) : DOut :=
-  let noProc : DOut :=
-    -- a later chunk of a pending progressive call ends that call (once: `syncCancel`)
-    if (s.d.byCall? ⟨caller, req⟩).isSome then
-      syncCancel env s caller req CancelModeKillNoWait ErrNoSuchProcedure []
-    else { st := s, sends := [⟨caller, errMsg tCALL req ErrNoSuchProcedure⟩] }
-  match s.d.matchProcedure proc with
-  | none => noProc
-  | some reg =>
-  if reg.callees.isEmpty then noProc else
   let callId : ReqId := ⟨caller, req⟩
   let inProgress := opts.optFlag OptProgress
   let details0 : Dict := [(OptProgress, .bool inProgress)]
-  if inProgress && !hasFeat env caller RoleCaller FeatureProgCallInvocations then
+  let progressAbort : DOut :=
     { st := s
       sends := [⟨caller, abortMsg "<text>"⟩]
       aborts := [caller] }
-  else
   match s.d.byCall? callId with
+  | some iid =>
+    -- a later chunk of a pending progressive call: same callee, same invocation id, the
+    -- registration of the first chunk (the chunk's own URI is not matched again)
+    match s.d.findInv iid with
+    | none => { st := s, panic := some "syncCall: invocationByCall entry without invocation (nil dereference)" }
+    | some invk0 =>
+    if inProgress && !hasFeat env caller RoleCaller FeatureProgCallInvocations then progressAbort else
+    let invk := { invk0 with inProgress := inProgress }
+    let s := { s with d := s.d.setInv invk }
+    let callee := invk.callee
+    let callerTimeout : Int := match invk.options.get? OptTimeout with | some (.int i) => i | _ => 0
+    let forwards := hasFeat env callee RoleCallee FeatureCallTimeout && invk.fwdTimeout
+    let timeout : Nat := if callerTimeout > 0 && !forwards then callerTimeout.toNat else 0
+    if env.full callee then
+      syncError s callee iid.req [] ErrNetworkFailure [.str "<text>"] []
+    else
+    let s :=
+      if timeout > 0 then
+        let tid := s.nextTimer + 1
+        let t : Timer := { id := tid, deadline := env.now + min timeout maxTimeoutMs, caller := caller, req := req }
+        { s with timers := s.timers ++ [t], nextTimer := tid,
+                 d := s.d.setInv { invk with timer := some tid } }
+      else s
+    { st := s, sends := [⟨callee, .invocation iid.req invk.regId details0 args kw⟩] }
   | none =>
+  match s.d.matchProcedure proc with
+  | none => { st := s, sends := [⟨caller, errMsg tCALL req ErrNoSuchProcedure⟩] }
+  | some reg =>
+  if reg.callees.isEmpty then { st := s, sends := [⟨caller, errMsg tCALL req ErrNoSuchProcedure⟩] } else
+  if inProgress && !hasFeat env caller RoleCaller FeatureProgCallInvocations then progressAbort else
     match pickCallee reg rnd with
     | none => { st := s, panic := some "syncCall: multiple callees registered with single policy" }
     | some (callee, reg') =>
@@ -324,7 +343,8 @@ def syncCall (env : DEnv) (s : DState) (caller : SessKey) (req : Nat) (opts : Di
     let details := if reg.«match» != MatchExact then details.set OptProcedure (.str proc) else details
     let (invId, gen) := invGenNext s.invGen callee
     let iid : ReqId := ⟨callee, invId⟩
-    let invk : Invk := { id := iid, callId := callId, callee := callee, inProgress := inProgress, options := opts }
+    let invk : Invk := { id := iid, callId := callId, callee := callee, inProgress := inProgress, options := opts,
+                         regId := reg.id, fwdTimeout := reg.fwdTimeout }
     let d := s.d
     let d := { d with calls := d.calls ++ [callId], invs := d.invs ++ [invk], byCall := d.byCall ++ [(callId, iid)] }
     let s := { s with d := d, invGen := gen }
@@ -345,28 +365,6 @@ def syncCall (env : DEnv) (s : DState) (caller : SessKey) (req : Nat) (opts : Di
                  d := s.d.setInv { invk with timer := some tid } }
       else s
     { st := s, sends := [⟨callee, .invocation invId reg.id details args kw⟩] }
-  | some iid =>
-    -- a later chunk of a progressive call invocation
-    match s.d.findInv iid with
-    | none => { st := s, panic := some "syncCall: invocationByCall entry without invocation (nil dereference)" }
-    | some invk0 =>
-    let invk := { invk0 with inProgress := inProgress }
-    let s := { s with d := s.d.setInv invk }
-    let callee := invk.callee
-    let callerTimeout : Int := match invk.options.get? OptTimeout with | some (.int i) => i | _ => 0
-    let forwards := hasFeat env callee RoleCallee FeatureCallTimeout && reg.fwdTimeout
-    let timeout : Nat := if callerTimeout > 0 && !forwards then callerTimeout.toNat else 0
-    if env.full callee then
-      syncError s callee iid.req [] ErrNetworkFailure [.str "<text>"] []
-    else
-    let s :=
-      if timeout > 0 then
-        let tid := s.nextTimer + 1
-        let t : Timer := { id := tid, deadline := env.now + min timeout maxTimeoutMs, caller := caller, req := req }
-        { s with timers := s.timers ++ [t], nextTimer := tid,
-                 d := s.d.setInv { invk with timer := some tid } }
-      else s
-    { st := s, sends := [⟨callee, .invocation iid.req reg.id details0 args kw⟩] }
 
 /-! ### YIELD -/
 
